@@ -116,6 +116,7 @@ impl<'de, 'a> DeserializeSeed<'de> for RKey<'a> {
             KeyTy::NewtypeStr(name) => d.deserialize_newtype_struct(intern(name), NewtypeV { t: &Ty::Str, cfg: self.cfg, name }),
             KeyTy::I64 => i64::deserialize(d).map(|x| Val::Int(x as i128)),
             KeyTy::SpannedI64 => R { ty: &Ty::Spanned(Box::new(Ty::I64)), cfg: self.cfg }.deserialize(d),
+            KeyTy::SpannedKey(_) => R { ty: &self.kt.as_ty(), cfg: self.cfg }.deserialize(d),
             KeyTy::Bool => bool::deserialize(d).map(Val::Bool),
             KeyTy::Char => char::deserialize(d).map(Val::Char),
         }
